@@ -12,7 +12,7 @@ Open Scope Z_scope.
 Theorem C02_quorum : forall c h b n cl park ms,
   0 <= c_threshold c ->
   let s := run c init h in
-  let s' := fst (vote s b n cl park ms) in
+  let s' := fst (vote c s b n cl park ms) in
   last_obs s' <> last_obs s ->
   exists a, aget keq (n, cl) (atts s') = Some a /\ a_obs a = true /\
             66 * last_total s <= 100 * vote_power (oracles s) (a_votes a) + 99.
@@ -24,7 +24,7 @@ Theorem C02_quorum_distinct : forall c h b n cl park ms,
   0 <= c_threshold c ->
   guarded c safe_unbond init (h ++ [Vote b n cl park ms]) ->
   let s := run c init h in
-  let s' := fst (vote s b n cl park ms) in
+  let s' := fst (vote c s b n cl park ms) in
   last_obs s' <> last_obs s ->
   exists a, aget keq (n, cl) (atts s') = Some a /\ a_obs a = true /\ NoDup (a_votes a) /\
             66 * last_total s <= 100 * dpower (oracles s) (a_votes a) + 99.
@@ -38,9 +38,27 @@ Theorem C02_no_double_count : forall c h k a,
 Proof. exact votes_distinct_guarded. Qed.
 Print Assumptions C02_no_double_count.
 
-(* without the guard it is false of the code (finding C02-2 = C01-1): votes [0;1;0], 50 % of the power suffices *)
+(* the repaired code (UnbondedOracle keeps the cursor): no guard, every history *)
+Theorem C02_no_double_count_fixed : forall c h k a,
+  c_unbond_del c = false ->
+  aget keq k (atts (run c init h)) = Some a -> NoDup (a_votes a).
+Proof. exact votes_distinct_fixed. Qed.
+Print Assumptions C02_no_double_count_fixed.
+
+Theorem C02_quorum_distinct_fixed : forall c h b n cl park ms,
+  0 <= c_threshold c -> c_unbond_del c = false ->
+  let s := run c init h in
+  let s' := fst (vote c s b n cl park ms) in
+  last_obs s' <> last_obs s ->
+  exists a, aget keq (n, cl) (atts s') = Some a /\ a_obs a = true /\ NoDup (a_votes a) /\
+            66 * last_total s <= 100 * dpower (oracles s) (a_votes a) + 99.
+Proof. exact quorum_distinct_fixed. Qed.
+Print Assumptions C02_quorum_distinct_fixed.
+
+(* while UnbondedOracle deletes the cursor, the unguarded statement is false (finding C02-2 = C01-1):
+   votes [0;1;0], 50 % of the power suffices *)
 Theorem C02_double_count_refuted :
-  exists c h, 0 <= c_threshold c /\
+  exists c h, 0 <= c_threshold c /\ c_unbond_del c = true /\
     let s := run c init h in
     exists a, aget keq (1, 1) (atts s) = Some a /\ a_obs a = true /\ last_obs s = 1 /\
               a_votes a = [0; 1; 0] /\ nonces_of 0 (vlog s) = [1; 1] /\
@@ -79,7 +97,7 @@ Print Assumptions C02_total_ge_online.
 (* a vote is accepted only from the registered bridger of an online oracle *)
 Theorem C02_admission : forall c h b n cl park ms,
   let s := run c init h in
-  snd (vote s b n cl park ms) = Ok ->
+  snd (vote c s b n cl park ms) = Ok ->
   exists o rec, aget Z.eqb b (by_bridger s) = Some o /\ aget Z.eqb o (oracles s) = Some rec /\
                 o_online rec = true /\ o_bridger rec = b.
 Proof. exact vote_admission. Qed.
@@ -87,40 +105,43 @@ Print Assumptions C02_admission.
 
 (* transaction layer: an accepted MsgClaim was signed by the wrapper's bridger and is counted for the
    wrapped claim's bridger *)
-Theorem C02_claim_tx_accept : forall unpacked chk s signers t,
-  snd (deliver_claim unpacked chk s signers t) = Ok ->
+Theorem C02_claim_tx_accept : forall c unpacked chk s signers t,
+  snd (deliver_claim c unpacked chk s signers t) = Ok ->
   In (required_signer t) signers /\
   exists o rec, aget Z.eqb (t_inner t) (by_bridger s) = Some o /\ aget Z.eqb o (oracles s) = Some rec /\
                 o_online rec = true /\
-                In (o, t_nonce t) (vlog (fst (deliver_claim unpacked chk s signers t))).
+                In (o, t_nonce t) (vlog (fst (deliver_claim c unpacked chk s signers t))).
 Proof. exact claim_tx_accept. Qed.
 Print Assumptions C02_claim_tx_accept.
 
-(* if ValidateBasic compared the two addresses, the counted bridger would have had to sign *)
-Theorem C02_signer_guarded : forall unpacked s signers t,
-  snd (deliver_claim unpacked true s signers t) = Ok -> In (t_inner t) signers.
+(* LATENT (not reachable through a transaction on the tree this was written for: every MsgClaim decoded from
+   bytes fails ValidateBasic, C02_bytes_path_rejects).  Statements about the handler chain once the message
+   carries its claim: if ValidateBasic compared the two addresses, the counted bridger would have had to sign *)
+Theorem C02_signer_guarded : forall c unpacked s signers t,
+  snd (deliver_claim c unpacked true s signers t) = Ok -> In (t_inner t) signers.
 Proof. exact signer_guarded. Qed.
 Print Assumptions C02_signer_guarded.
 
-(* as the code is, it does not: an account that is nobody's bridger casts the votes of oracles 0,1,2 and
-   event nonce 1 takes effect (finding C02-1; replayed on the real ante chain + message router) *)
+(* it does not compare them: on the message-object level an account that is nobody's bridger casts the votes of
+   oracles 0,1,2 and event nonce 1 takes effect (docs/findings/C02-1.md: latent; shown on the real ante chain +
+   message router with the message object; becomes real the moment MsgClaim gets UnpackInterfaces) *)
 Theorem C02_signer_refuted :
   exists c h signers,
     let s0 := run c init h in
     (forall b o, aget Z.eqb b (by_bridger s0) = Some o -> ~ In b signers) /\
-    let s1 := fst (deliver_claim_mem s0 signers (forged 0)) in
-    let s2 := fst (deliver_claim_mem s1 signers (forged 1)) in
-    let s3 := fst (deliver_claim_mem s2 signers (forged 2)) in
-    snd (deliver_claim_mem s0 signers (forged 0)) = Ok /\
-    snd (deliver_claim_mem s1 signers (forged 1)) = Ok /\
-    snd (deliver_claim_mem s2 signers (forged 2)) = Ok /\
+    let s1 := fst (deliver_claim_mem c s0 signers (forged 0)) in
+    let s2 := fst (deliver_claim_mem c s1 signers (forged 1)) in
+    let s3 := fst (deliver_claim_mem c s2 signers (forged 2)) in
+    snd (deliver_claim_mem c s0 signers (forged 0)) = Ok /\
+    snd (deliver_claim_mem c s1 signers (forged 1)) = Ok /\
+    snd (deliver_claim_mem c s2 signers (forged 2)) = Ok /\
     last_obs s0 = 0 /\ last_obs s3 = 1 /\
     vlog s3 = [(0, 1); (1, 1); (2, 1)].
 Proof. exact signer_refuted. Qed.
 Print Assumptions C02_signer_refuted.
 
 (* as the code is, a MsgClaim decoded from transaction bytes never passes ValidateBasic (no UnpackInterfaces) *)
-Theorem C02_bytes_path_rejects : forall s signers t, deliver_claim_bytes s signers t = (s, Err E_Invalid).
+Theorem C02_bytes_path_rejects : forall c s signers t, deliver_claim_bytes c s signers t = (s, Err E_Invalid).
 Proof. exact bytes_path_rejects. Qed.
 Print Assumptions C02_bytes_path_rejects.
 
@@ -140,6 +161,7 @@ Theorem C02_source_shape :
   gen_vote_threshold = vote_threshold /\ gen_tally_divisor = 100 /\
   gen_change_threshold = change_threshold /\ gen_max_keep = max_keep /\ gen_max_oracles = max_oracles /\
   gen_power_reduction = power_reduction /\
-  gen_writer_sites = expected_writer_sites /\ gen_raw_key_users = expected_raw_key_users.
+  (gen_writer_sites = expected_writer_sites \/ gen_writer_sites = expected_writer_sites_repaired) /\
+  gen_raw_key_users = expected_raw_key_users.
 Proof. exact gen_matches_model. Qed.
 Print Assumptions C02_source_shape.
